@@ -380,6 +380,7 @@ AddNano(i, n) ==
 LeakCfgs == << <<B("us-east-1"), B("s3")>>, <<B("us-east-1"), B("S3")>>, <<B("us-east-1"), B("sts")>>, <<B("aws-global"), B("iam")>>,
               <<B("us-gov-west-1"), B("execute-api")>>, <<B("cn-north-1"), B("s3-object-lambda")>>, <<B("local"), B("test")>>,
               <<B("us-east-1"), B("dynamodb")>> >>
+FoldMethods == <<B("POST"), B("PUT"), B("PATCH"), B("DELETE"), B("GET"), B("post"), B("OPTIONS")>>
 ManyCounts == <<18, 19, 21, 23, 25, 27, 29, 31, 33, 40, 64, 100>>
 ExpiresValues == << B("1"), B("60"), B("900"), B("3600"), B("86400"), B("604800"), B("0"), B("-1"), B("abc") >>
 ExpiresAges == << -1200, -901, -900, -899, -300, -61, -59, 0, 59, 899, 900, 901 >>
@@ -414,8 +415,10 @@ SubsetOf(names, mask) == SelectSeq([i \in 1..Len(names) |-> IF (mask \div (2 ^ (
                                    LAMBDA x : x # <<>>)
 StyledSubset(names, mask, style) == [i \in 1..Len(SubsetOf(names, mask)) |-> Styled(SubsetOf(names, mask)[i], style)]
 ReqHdrSets == <<
-    << <<B("Content-Type"), B("text/plain")>>, <<B("ETag"), B("e1")>>, <<B("X-Amz-Meta"), B("m")>>, <<B("X-Abc"), B("a")>> >>,
-    << <<B("X-Req"), B("r")>>, <<B("X-Opt"), B("o")>>, <<B("X-Amz-Target"), B("t")>>, <<B("x-amz-meta"), B("m")>> >>,
+    << <<B("Content-Type"), B("text/plain")>>, <<B("ETag"), B("e1")>>, <<B("X-Amz-Meta"), B("m")>>, <<B("X-Abc"), B("a")>>,
+       <<B("X-Amzn-Trace-Id"), B("Root=1-5759e988-bd862e3fe1be46a994272793")>> >>,
+    << <<B("X-Req"), B("r")>>, <<B("X-Opt"), B("o")>>, <<B("X-Amz-Target"), B("t")>>, <<B("x-amz-meta"), B("m")>>,
+       <<B("X-Amzn-Trace-Id"), B("Root=1-5759e988-bd862e3fe1be46a994272793")>> >>,
     << >>,
     << <<B("Content-Type"), B("a/b")>>, <<B("X-Req"), B("r")>>, <<B("ETag"), B("e")>>, <<B("X-Opt"), B("o")>>,
        <<B("X-Amz-A"), B("1")>>, <<B("X-A1"), B("2")>> >> >>
@@ -520,6 +523,16 @@ DupCases == <<
                                                     \o Join([i \in 1..29 |-> B("x") \o Dec(i, 2) \o B("=") \o Dec(i, 1)], B(", "))
                                                     \o B(", SignedHeaders=host;x-amz-date, Credential=") \o CredOf(B("WRONG"))
                                                     \o B(", Signature=00")] >>, [cred |-> CredOf(B("AKIDEXAMPLE"))]),
+    \* an X-Amz-Signature query parameter on a header-carrier request (alone, and next to others)
+    WithPost([HdrB EXCEPT !.L.query = B("X-Amz-Signature=00")], <<>>, NoOver),
+    WithPost([HdrB EXCEPT !.L.query = B("a=1&X-Amz-Signature=00&X-Amz-Signature=11")], <<>>, NoOver),
+    \* a presigned URL that also carries an Authorization header of another scheme: both carriers, refused
+    WithPost(QryB, << [k |-> "hdrins", at |-> 2, name |-> B("Authorization"), v |-> B("Basic dXNlcjpwYXNz")] >>, NoOver),
+    WithPost(QryB, << [k |-> "hdrins", at |-> 2, name |-> B("Authorization"), v |-> B("Bearer abc.def")] >>, NoOver),
+    WithPost([QryB EXCEPT !.L.ts = B("20150830T110000Z")], << [k |-> "hdrins", at |-> 2, name |-> B("Authorization"), v |-> B("Basic dXNlcjpwYXNz")] >>, NoOver),
+    \* HTTP/2 style: no Host header, the authority travels in the target; "host" is listed but there is no such header
+    WithPost([HdrB EXCEPT !.L.hdrs = <<>>, !.L.version = "HTTP/2.0"], << [k |-> "uripre", v |-> B("https://example.amazonaws.com")] >>, NoOver),
+    WithPost([QryB EXCEPT !.L.hdrs = <<>>, !.L.version = "HTTP/2.0"], << [k |-> "uripre", v |-> B("https://example.amazonaws.com")] >>, NoOver),
     \* only a Date header
     WithPost([HdrB EXCEPT !.L.dateHeader = B("Date"), !.L.signed = <<B("date"), B("host")>>], <<>>, NoOver),
     \* two security-token headers: the first one is handed to the provider
@@ -671,7 +684,7 @@ Dim(k) ==
             ELSE 0
       [] Family = "scripts"  -> V(IF Bound = 1 THEN <<1, 3, 1, 3, 4, 6, 2>> ELSE <<3, 3, 3, 3, 4, 6, 2>>, k)
       [] Family = "leak_scripts" -> V(<<1, 3, 1, 3, 4, 2>>, k)
-      [] Family \in {"sigmut", "leak_sigmut"} -> V(<<2, 72>>, k)
+      [] Family \in {"sigmut", "leak_sigmut"} -> V(<<2, 76>>, k)
       [] Family = "base"     -> V(IF Bound = 0 THEN <<2, 2, 3, 3, 3, 2, 2, 2>> ELSE <<2, 4, 6, 6, 5, 3, 2, 2>>, k)
       [] Family = "mut_uri"  -> IF k = 1 THEN 2 ELSE IF k = 2 THEN NumMutBase
                                 ELSE IF k = 3 THEN Len(MutW(CarrierOf(idx[1]), idx[2]).uri) ELSE 0
@@ -691,8 +704,8 @@ Dim(k) ==
       \* Bound 0: URL and body lists of <= 1 component, bodies as sent; 1: three lists (incl. the same name in both)
       \* with body variants and post-signing body flips; 2: every pair of lists of <= 2 components
       [] Family = "fold"     -> V(CASE Bound = 0 -> <<2, 7, 7, Len(ContentTypes), 2, 1, 1>>
-                                    [] Bound = 1 -> <<2, 3, 3, 6, 3, 8, 3>>
-                                    [] Bound = 3 -> <<1, 3, 3, 1, 3, 8, 1>>     \* a small slice for the query property
+                                    [] Bound = 1 -> <<2, 3, 3, 6, 3, 9, 3>>
+                                    [] Bound = 3 -> <<1, 3, 3, 1, 3, 9, 1>>     \* a small slice for the query property
                                     [] OTHER -> <<2, 43, 43, Len(ContentTypes), 2, 1, 2>>, k)
       [] Family = "dup"      -> V(<<Len(DupCases)>>, k)
       \* carrier, folding, requirement kind, which header it concerns, is that header signed
@@ -703,6 +716,8 @@ Dim(k) ==
       [] Family = "leak_cfg" -> V(<<2, Len(LeakCfgs), 4>>, k)
       \* carrier, midnight case, what is wrong with the request
       [] Family = "leak_midnight" -> V(<<2, Len(MidnightCases), 3>>, k)
+      \* method, carrier, folding, body, tampering after signing
+      [] Family = "foldmethod" -> V(<<Len(FoldMethods), 2, 2, 2, 2>>, k)
       \* number of filler parameters, which parameter is repeated, where the two occurrences sit
       [] Family = "manyparams" -> V(<<Len(ManyCounts), 3, 3>>, k)
       \* carrier, X-Amz-Expires value, where it travels, age of the request
@@ -760,7 +775,12 @@ BundleOf ==
                                       [] k = 69 -> [kind |-> "set", pos |-> 0, c |-> 90]     \* 64 characters, one of them not hex
                                       [] k = 70 -> [kind |-> "set", pos |-> 63, c |-> 71]
                                       [] k = 71 -> [kind |-> "fill", c |-> 90]              \* 'Z' x 64
-                                      [] k = 72 -> [kind |-> "fill", c |-> 48]]             \* '0' x 64
+                                      [] k = 72 -> [kind |-> "fill", c |-> 48]              \* '0' x 64
+                                      \* over-long / short signatures that do not contain the correct one
+                                      [] k = 73 -> [kind |-> "flipappend", b |-> B("0")]
+                                      [] k = 74 -> [kind |-> "flipappend", b |-> B("0123456789abcdef")]
+                                      [] k = 75 -> [kind |-> "fliptrunc", n |-> 63]
+                                      [] k = 76 -> [kind |-> "fliptrunc", n |-> 32]]
       [] Family = "base" ->
             LET b == Bundle0(CarrierOf(idx[1]))
                 L1 == [b.L EXCEPT !.method = Methods[idx[2]], !.path = Paths[idx[3]], !.query = Queries[idx[4]],
@@ -840,6 +860,7 @@ BundleOf ==
                           [] idx[6] = 4 -> <<239, 187, 191>> \o body0 \o B("&z=1")            \* UTF-8 byte-order mark: data
                           [] idx[6] = 5 -> <<255, 254>> \o body0                              \* UTF-16 byte-order mark: not UTF-8
                           [] idx[6] = 6 -> body0 \o <<10>>                                    \* a trailing line feed is data
+                          [] idx[6] = 9 -> <<AMP, AMP>> \o body0 \o <<AMP>>        \* separators only / around: still a form, still folded
                           [] idx[6] = 8 -> (IF body0 = <<>> THEN <<>> ELSE body0 \o <<AMP>>) \o B("s=1;t=2;;u")   \* ';' does not separate
                           [] idx[6] = 7 -> B("z=") \o <<13, 10>> \o (IF body0 = <<>> THEN <<>> ELSE <<AMP>> \o body0) \o <<13, 10>>
                 L1   == [b.L EXCEPT !.method = B("POST"), !.query = FoldList(idx[2]), !.body = body,
@@ -900,6 +921,14 @@ BundleOf ==
                 m == MidnightCases[idx[2]]
                 b2 == [b EXCEPT !.L.ts = m[1], !.cfg.now = m[2], !.L.scope = [@ EXCEPT ![1] = m[3]]]
             IN CASE idx[3] = 1 -> b2 [] idx[3] = 2 -> Inject(b2, 16, 1) [] OTHER -> [b2 EXCEPT !.script.secret = Secret2]
+      [] Family = "foldmethod" ->
+            \* form folding does not depend on the method: a form body is folded (and covered by the signature) for
+            \* every method, and without folding every body byte is covered
+            LET b    == Bundle0(CarrierOf(idx[2]))
+                body == IF idx[4] = 1 THEN B("a=1&b=2") ELSE <<>>
+                L1   == [b.L EXCEPT !.method = FoldMethods[idx[1]], !.body = body, !.query = B("c=3"), !.hdrs = @ \o <<FormHdr>>]
+            IN [b EXCEPT !.L = [L1 EXCEPT !.signed = SignAll(L1)], !.cfg.fold = Bool(idx[3]),
+                         !.post = IF idx[5] = 2 THEN << [k |-> "body", v |-> B("a=1&b=3")] >> ELSE <<>>]
       [] Family = "manyparams" ->
             \* long Authorization parameter lists (unknown parameters are legal) in which one real parameter occurs twice,
             \* the bogus occurrence first: the last one counts, wherever the two sit and however many others there are
